@@ -281,9 +281,12 @@ pub enum Target {
     OptStr,
     Unit,
     Bytes,
+    /// `Vec<u8>` (README: "`!!binary`-tagged YAML values are base64-decoded when deserializing into `Vec<u8>`"): reached through deserialize_seq, not deserialize_bytes
+    VecU8,
+    OptVecU8,
     Untyped,
 }
-pub const TARGETS: [Target; 20] = [
+pub const TARGETS: [Target; 22] = [
     Target::I8,
     Target::I16,
     Target::I32,
@@ -303,6 +306,8 @@ pub const TARGETS: [Target; 20] = [
     Target::OptStr,
     Target::Unit,
     Target::Bytes,
+    Target::VecU8,
+    Target::OptVecU8,
     Target::Untyped,
 ];
 impl Target {
@@ -810,8 +815,9 @@ fn expect_string(text: &str, style: Style, tag: Tag, opt: Opt) -> Expect {
     }
     // README: "`!!binary`-tagged YAML values are base64-decoded when deserializing into
     // `Vec<u8>` or `String` (reporting an error if it is not valid UTF-8)"
-    let grey_plain = style == Style::Plain
-        && (nullish_lenient(text) || (opt.no_schema && nonstring_class(text, opt) != Cls::No));
+    // (a payload whose base64 text spells a null-like token is still a payload: README states no
+    // exception, and `null` is the canonical base64 of 9E E9 65)
+    let grey_plain = style == Style::Plain && (text.is_empty() || (opt.no_schema && nonstring_class(text, opt) != Cls::No));
     match b64_decode(text) {
         B64::Grey => Expect::Any,
         B64::Invalid => {
@@ -1067,7 +1073,7 @@ fn expect_untyped(text: &str, style: Style, tag: Tag, opt: Opt) -> Expect {
         }
         Tag::Int | Tag::Float | Tag::Bool => Expect::Any,
         Tag::Binary => {
-            if style == Style::Plain && nullish_lenient(text) {
+            if style == Style::Plain && text.is_empty() {
                 return Expect::Any;
             }
             if opt.ignore_bin {
@@ -1196,13 +1202,21 @@ pub fn expect(text: &str, style: Style, tag: Tag, target: Target, opt: Opt) -> E
             }
         }
         Target::OptStr => {
-            if tag == Tag::Binary && nullish_lenient(text) {
-                return Expect::Any;
+            if tag == Tag::Binary {
+                // a `!!binary` scalar is a payload, never a null
+                return wrap_some(expect_string(text, style, tag, opt), false);
             }
             expect_option(text, style, tag, expect_string(text, style, tag, opt))
         }
         Target::Unit => expect_unit(text, style, tag),
-        Target::Bytes => expect_bytes(text, style, tag),
+        Target::Bytes | Target::VecU8 => expect_bytes(text, style, tag),
+        Target::OptVecU8 => {
+            if tag != Tag::Binary {
+                return Expect::Any;
+            }
+            // a `!!binary` scalar is a payload, never a null (the base64 text of some byte strings spells `null`)
+            wrap_some(expect_bytes(text, style, tag), false)
+        }
         Target::Untyped => expect_untyped(text, style, tag, opt),
         t => {
             let (signed, w) = t.int().expect("integer target");
